@@ -47,19 +47,20 @@ namespace occa {
     memoryRing.addRef(mem);
   }
 
-  void modeMemory_t::removeMemoryRef(memory *mem) {
-    memoryRing.removeRef(mem);
+  bool modeMemory_t::removeMemoryRef(memory *mem) {
+    return memoryRing.removeRef(mem);
   }
 
   void modeMemory_t::removeModeMemoryRef() {
     if (modeBuffer == NULL) return;
 
-    modeBuffer->removeModeMemoryRef(this);
+    // Only the thread whose removal left the buffer without slices frees it
+    const bool bufferNeedsFree = modeBuffer->removeModeMemoryRef(this);
 #ifdef LIBOCCA_OCCA_VERIF
     verif::yield(verif::ptAfterRemoveModeMemoryRef);
 #endif
 
-    if (modeBuffer->needsFree()) {
+    if (bufferNeedsFree) {
       delete modeBuffer;
     }
     modeBuffer = NULL;
